@@ -4,6 +4,8 @@ CONSTANT MaxLen = 3
 CONSTANT LocLen = 1
 CONSTANT Fibs = {1, 2, 3}
 CONSTANT AppMax = 3
+CONSTANT LongLens = {17, 23, 32, 40}
+CONSTANT LongSeeds = {1, 2, 3}
 INIT Init
 NEXT Next
 INVARIANT TypeOK
@@ -14,6 +16,7 @@ INVARIANT C16_LoglamAffine
 INVARIANT C16_TablesFollow
 INVARIANT C16_MatchesSpecified
 INVARIANT C16_ConvIndependent
+INVARIANT C16_MemIndependent
 INVARIANT C16_IndexBookkeeping
 INVARIANT C16_AppendShape
 INVARIANT C16_AppendNoOverlap
